@@ -63,3 +63,63 @@ Definition C07_final_only_refuted : Prop :=
     (* the fixed model *)
     final_fold None (fst (stream_run c w ps merged_end merged forked)) = true /\
     fst (stream_run c w ps merged_end merged forked) <> fst res.
+
+(* ------------------------------------------------------------------ before the fix "none at or below the cursor" *)
+
+(* Stream.Run with the stateful final-blocks-only filter starting from an EMPTY memory whatever the start mode (the model
+   between the two fixes; Model/Joining.stream_run now starts it at the cursor block in cursor mode: start_mem) *)
+Definition stream_run_nomem (c : jcfg) (w : world) (ps : list (N * N)) (merged_end : N) (merged forked : list block) : list event * jerr :=
+  let head := match hub_head (w_hub w) with Some (r, _) => rn r | None => 0 end in
+  let start := abs_start (j_first c) (j_start c) head in
+  if negb (j_stop c =? 0) && (j_stop c <? start) then ([], JInvalidArg) else
+  let cur := if j_mode c =? 0 then None else j_cursor c in
+  if (j_filter c =? 1) && match cur with Some cu => negb (on_final_block cu) | None => false end
+  then ([], JInvalidArg) else
+  let fuel := (40 * (length (w_rest w) + length merged + 20))%nat in
+  match live_try c (w_hub w) start with
+  | BOk burst => if j_filter c =? 1 then live_phase_fin fuel c w None burst 0 ps []
+                 else live_phase fuel c w burst 0 ps []
+  | BFuel | BPanic => ([], JFuel)
+  | BErr =>
+      let stop_for_files := if j_stop c =? 0 then 1000000000000 else j_stop c in
+      let '(fevs, r) :=
+        if j_mode c =? 0 then (map (file_event SNewIrr) (file_delivery merged start stop_for_files (j_bundle c)), RsOk)
+        else match j_cursor c with
+             | None => ([], RsOk)
+             | Some cu => if j_mode c =? 1 then from_cursor_run merged forked cu stop_for_files (j_bundle c)
+                          else through_cursor_run merged forked start cu stop_for_files (j_bundle c)
+             end in
+      let fend := match r with
+                  | RsOk => if negb (j_stop c =? 0) && ((j_stop c / j_bundle c + 1) * j_bundle c <=? merged_end)
+                            then JStop else JNil
+                  | RsResolveErr => JInvalidArg
+                  | RsNotImplemented => JOther
+                  | RsFuel => JFuel end in
+      if j_filter c =? 1 then file_phase_fin fuel c w None (hub_lowest (w_hub w)) fevs fend 0 ps []
+      else file_phase fuel c w (hub_lowest (w_hub w)) fevs fend 0 ps []
+  end.
+
+(* Final blocks only FROM A CURSOR: c07_prop checks `final_fold (Some (id of the cursor block))` - the first delivered
+   block extends the cursor block.  With the filter's memory starting empty this was FALSE: when the cursor is ahead of
+   the hub's LIB (the consumer got its last final block from merged files that the lagging hub does not yet consider
+   final) and the hub serves the cursor itself, the hub later announces as Irreversible blocks at or below the cursor
+   block.  Found while proving the final-blocks-only clause, replayed on the real stream.New + ForkableHub by the main
+   session (hub head 14, LIB 10, cursor {irreversible, 12, LIB 12}: delivered irreversible 11, irreversible 12),
+   repaired (repo_patches/C07_fix_final_only_from_cursor.diff).  Every world hypothesis of the C07 theorems holds; the
+   cursor is on a final canonical block (IsOnFinalBlock); the fixed model delivers nothing at or below the cursor. *)
+Definition C07_final_cursor_refuted : Prop :=
+  exists (U : list block) (c : jcfg) (w : world) (ps : list (N * N)) (merged_end : N) (canon forked : list block) (cu : cursor) (L : block),
+    wf_b U = true /\ lib_ok_b LNone U = true /\
+    hub_of_universe U c w /\
+    chain_ok canon /\ incl canon U /\
+    eventual_tip c w canon /\
+    j_mode c = 1 /\ j_cursor c = Some cu /\ j_filter c = 1 /\ j_stop c = 0 /\ 0 < j_bundle c /\
+    on_final_block cu = true /\ In L canon /\ bref L = cu_blk cu /\ bref L = cu_lib cu /\
+    let merged := filter (fun b => bnum b <? merged_end) canon in
+    let res := stream_run_nomem c w ps merged_end merged forked in
+    snd res = JNil /\ final_fold (Some (ri (cu_blk cu))) (fst res) = false /\
+    (* blocks at or below the cursor block are delivered *)
+    (exists e, In e (fst res) /\ bnum (eblk e) <= rn (cu_blk cu)) /\
+    (* the fixed model *)
+    final_fold (Some (ri (cu_blk cu))) (fst (stream_run c w ps merged_end merged forked)) = true /\
+    Forall (fun e => rn (cu_blk cu) < bnum (eblk e)) (fst (stream_run c w ps merged_end merged forked)).
